@@ -98,6 +98,9 @@ def write_replay(prop, o, registry, repo_root):
                 try:
                     args[pname] = int(val)
                 except ValueError:
+                    if len(val) >= 2 and val[0] == '"' and val[-1] == '"':      # a z3 string literal
+                        import re as _re
+                        val = _re.sub(r'\\u\{([0-9a-fA-F]+)\}', lambda m: chr(int(m.group(1), 16)), val[1:-1]).replace('""', '"')
                     args[pname] = val
             else:
                 args[pname] = 1
